@@ -6,15 +6,16 @@
 (*    EnvClear (Environment.__init__ -> Report.clear) ; script effects ;   *)
 (*    resolve (which runs resolver hooks).                                 *)
 (* ClearResets is the set of slots that Report.clear / the lazy per-report *)
-(* tool reset actually restore in the code (read off report.py,            *)
+(* tool reset (or per-analysis copies: type_tables) restore in the code    *)
+(* (read off report.py, new_types.py,                                      *)
 (* environment.py, the tools' reset functions).  A slot outside            *)
 (* ClearResets that some script dirties and some script reads is a leak.   *)
 (***************************************************************************)
 EXTENDS Naturals, Sequences, FiniteSets, TLC, Json
-CONSTANTS Scripts, Subs, MaxLen, ClearResets, Writes, Reads
+CONSTANTS Scripts, Subs, MaxLen, ClearResets, Writes, Reads, SubWrites, SubReads
 
 Slots == {"feedback", "suppressions", "hiddens", "hooks", "tooldata", "formatter", "overrides", "pools",
-          "sandbox_mocks", "tracer", "sections", "builtin_modules", "class_hooks"}
+          "sandbox_mocks", "tracer", "sections", "builtin_modules", "class_hooks", "type_tables"}
 \* slots whose persistence is documented (Report.clear: "will not affect class hooks")
 Documented == {"class_hooks"}
 
@@ -26,8 +27,10 @@ Init == dirty = {} /\ hist = <<>> /\ leakSeen = {}
 Grade(sc, sub) ==
     /\ Len(hist) < MaxLen
     /\ LET afterClear == dirty \ ClearResets IN
-       /\ leakSeen' = leakSeen \cup ((afterClear \cap Reads[sc]) \ Documented)
-       /\ dirty' = afterClear \cup Writes[sc]
+       \* the SUBMISSION is analysed and executed too: what it does to process-wide state (attribute assignments that
+       \* TIFA records in its type tables, mutation of real modules) counts like the script's own effects
+       /\ leakSeen' = leakSeen \cup ((afterClear \cap (Reads[sc] \cup SubReads[sub])) \ Documented)
+       /\ dirty' = afterClear \cup Writes[sc] \cup SubWrites[sub]
     /\ hist' = Append(hist, <<sc, sub>>)
 Next == \E sc \in Scripts, sub \in Subs : Grade(sc, sub)
 Spec == Init /\ [][Next]_vars
